@@ -8,6 +8,7 @@ mod c_memstorage;
 mod node;
 mod sim;
 mod c_node;
+mod c_confchange;
 
 fn main() {
     let args: Vec<String> = std::env::args().collect();
@@ -22,6 +23,7 @@ fn main() {
         "quorum" => c_quorum::main(rest),
         "memstorage" => c_memstorage::main(rest),
         "node" => c_node::main(rest),
+        "confchange" => c_confchange::main(rest),
         other => {
             eprintln!("unknown component {}", other);
             std::process::exit(2);
